@@ -14,11 +14,11 @@
 //! `harness/src/calgen.rs`): that input aborts the process (property C18 runs it in a child process).
 use qvh::ast::{instruction_to_sexp, instructions_to_sexp};
 use qvh::calgen::{self, one, Mode};
-use qvh::progs::parse_all;
 use qvh::*;
 use quil_rs::instruction::Instruction;
 use quil_rs::program::{ExpansionResult, ProgramError};
 use quil_rs::Program;
+use std::str::FromStr;
 
 fn err_sexp(e: &ProgramError) -> Sexp {
     match e {
@@ -72,7 +72,13 @@ fn prog_case(ctx: &mut Ctx, instrs: Vec<Instruction>) {
 fn text_case(ctx: &mut Ctx, parts: &[&str]) {
     let mut instrs = vec![];
     for p in parts {
-        instrs.extend(parse_all(p));
+        match Program::from_str(p) {
+            Ok(q) => instrs.extend(q.to_instructions()),
+            Err(e) => {
+                eprintln!("corpus text does not parse: {p:?}: {e}");
+                std::process::exit(3);
+            }
+        }
     }
     prog_case(ctx, instrs);
 }
